@@ -391,7 +391,9 @@ func c17Program(c *core.Case) (*c17Prog, *gen.Scope) {
 }
 
 // rawNode carries verbatim expression text through the renderer.
-func rawNode(src string) *gen.Node { return &gen.Node{Kind: gen.KRaw, Str: src, Ty: cty.DynamicPseudoType} }
+func rawNode(src string) *gen.Node {
+	return &gen.Node{Kind: gen.KRaw, Str: src, Ty: cty.DynamicPseudoType}
+}
 
 // variant gives goroutine i its own values: every string gets a suffix and
 // every number an offset that identify the goroutine, so that a result
